@@ -77,7 +77,15 @@ func MavenDepTypeToDependency(typ dep.Type) (maven.Dependency, string, error) {
 	if e, ok := typ.GetAttr(dep.MavenExclusions); ok {
 		exs := strings.Split(e, "|")
 		for _, ex := range exs {
+			if ex == "" {
+				// MavenDepType leaves the attribute empty when every
+				// exclusion had to be skipped.
+				continue
+			}
 			i := strings.Index(ex, ":")
+			if i < 0 {
+				return maven.Dependency{}, "", errors.New("invalid Maven dep.Type")
+			}
 			result.Exclusions = append(result.Exclusions, maven.Exclusion{
 				GroupID:    maven.String(ex[:i]),
 				ArtifactID: maven.String(ex[i+1:]),
@@ -235,30 +243,34 @@ func mavenRequirementsToProject(pk maven.ProjectKey, req *pb.Requirements_Maven)
 
 	var profiles []maven.Profile
 	for _, p := range req.Profiles {
+		// A profile may come without an activation, and an activation
+		// property without its name/value pair: use the generated getters,
+		// which are safe on nil messages.
+		act := p.GetActivation()
 		activation := maven.Activation{
-			ActiveByDefault: maven.FalsyBool(p.Activation.ActiveByDefault),
+			ActiveByDefault: maven.FalsyBool(act.GetActiveByDefault()),
 		}
-		if p.Activation.Jdk != nil {
-			activation.JDK = maven.String(p.Activation.Jdk.Jdk)
+		if jdk := act.GetJdk(); jdk != nil {
+			activation.JDK = maven.String(jdk.GetJdk())
 		}
-		if p.Activation.Os != nil {
+		if os := act.GetOs(); os != nil {
 			activation.OS = maven.ActivationOS{
-				Name:    maven.String(p.Activation.Os.Name),
-				Family:  maven.String(p.Activation.Os.Family),
-				Arch:    maven.String(p.Activation.Os.Arch),
-				Version: maven.String(p.Activation.Os.Version),
+				Name:    maven.String(os.GetName()),
+				Family:  maven.String(os.GetFamily()),
+				Arch:    maven.String(os.GetArch()),
+				Version: maven.String(os.GetVersion()),
 			}
 		}
-		if p.Activation.Property != nil {
+		if prop := act.GetProperty().GetProperty(); prop != nil {
 			activation.Property = maven.ActivationProperty{
-				Name:  maven.String(p.Activation.Property.Property.Name),
-				Value: maven.String(p.Activation.Property.Property.Value),
+				Name:  maven.String(prop.GetName()),
+				Value: maven.String(prop.GetValue()),
 			}
 		}
-		if p.Activation.File != nil {
+		if file := act.GetFile(); file != nil {
 			activation.File = maven.ActivationFile{
-				Missing: maven.String(p.Activation.File.Missing),
-				Exists:  maven.String(p.Activation.File.Exists),
+				Missing: maven.String(file.GetMissing()),
+				Exists:  maven.String(file.GetExists()),
 			}
 		}
 		profiles = append(profiles, maven.Profile{
